@@ -312,6 +312,17 @@ def o_executed(case):
         txs_in.append(ti)
     tx = T(tx0["version"], txs_in, [T.TxOut(o["value"], o["script"]) for o in tx0["outs"]], tx0["locktime"],
            unspents=[T.TxOut(amount if k == n_in else 0, sp["spk"] if k == n_in else b"\x51") for k in range(len(txs_in))])
+    if case.get("via_copy"):
+        # the transaction under validation is a copy of an object that was validated before with another version number:
+        # the digest is that of the object being checked, not of the one it was copied from
+        import copy
+        tx.version ^= 1
+        try:
+            tx.check_solution(n_in, flags=case["flags"])
+        except ScriptError:
+            pass
+        tx = copy.copy(tx)
+        tx.version = tx0["version"]
     g = BTC.generator
     N = g.order()
     calls = []
@@ -343,7 +354,7 @@ def o_executed(case):
                             "against digest %064x; the reference interpreter computes %s for it" % (
                                 sp["script_sig"].hex()[:200], sp["spk"].hex()[:200], [w.hex()[:60] for w in sp["witness"]], case["flags"],
                                 _short_tx(tx0, n_in), r >> 200, z, sorted("%064x" % e if e is not None else "none" for e in exp)))
-    labels = ["shape=" + case["shape"], "compared=%d" % min(compared, 4), "ref=" + str(verdict)]
+    labels = ["shape=" + case["shape"], "compared=%d" % min(compared, 4), "ref=" + str(verdict)] + (["via-copy"] if case.get("via_copy") else [])
     if compared >= 2 and len({z for z, _r, _s in calls}) >= 2:
         labels.append("distinct-digests")
     if V.OP_CODESEPARATOR in ctx.executed:
@@ -386,7 +397,7 @@ def s_executed():
     templ = st.builds(lambda lu, ctx, fl, shape: dict(ctx, kind="spend", shape=shape, lock=lu[0], unlock=lu[1], flags=fl, mut=[]),
                       G.lock_templates(), G.contexts(), flags, shapes)
     coin = st.sampled_from(["btc", "btc", "ltc"])
-    return st.builds(lambda c, coin: dict(c, coin=coin), weighted((3, m), (1, templ)), coin)
+    return st.builds(lambda c, coin, vc: dict(c, coin=coin, via_copy=vc), weighted((3, m), (1, templ)), coin, st.sampled_from([0, 0, 1]))
 
 
 def _wellformed_codes():
